@@ -10,6 +10,7 @@ import (
 	"sort"
 	"strings"
 	"sync"
+	"time"
 
 	"golang.org/x/tools/go/packages"
 	"golang.org/x/tools/go/ssa"
@@ -27,8 +28,9 @@ type Options struct {
 	HarnessDir     string
 	Overlay        map[string][]byte
 	Tier           string
-	ForceQuick     bool // thorough tier fallback: this harness runs at the quick bounds
-	Variant        int // thorough tier: which focus variant of a harness is being explored
+	ForceQuick     bool          // thorough tier fallback: this harness runs at the quick bounds
+	WallBudget     time.Duration // exploration of one harness stops (Truncated) after this long; 0 = no limit
+	Variant        int           // thorough tier: which focus variant of a harness is being explored
 }
 
 type Intrinsic func(m *Machine, fn *ssa.Function, args []Value) Value
@@ -39,25 +41,25 @@ type Harness struct {
 }
 
 type Program struct {
-	opts  Options
-	prog  *ssa.Program
-	pkgs  []*ssa.Package
-	byPath map[string]*ssa.Package
-	base  *World
-	baseStore *Store
-	intr  map[string]Intrinsic
-	intrCache sync.Map // *ssa.Function -> Intrinsic (or nil marker)
-	rtypePtr types.Type
-	reflectPkg *types.Package
+	opts           Options
+	prog           *ssa.Program
+	pkgs           []*ssa.Package
+	byPath         map[string]*ssa.Package
+	base           *World
+	baseStore      *Store
+	intr           map[string]Intrinsic
+	intrCache      sync.Map // *ssa.Function -> Intrinsic (or nil marker)
+	rtypePtr       types.Type
+	reflectPkg     *types.Package
 	errorStringPtr types.Type
-	numErrorT types.Type
-	harnesses map[string]*Harness
-	initOrder []*ssa.Package
-	inited map[*ssa.Package]bool // in base
-	initMu sync.Mutex
-	methMu sync.Mutex
-	methCache map[methKey]*ssa.Function
-	LoadedFiles []string
+	numErrorT      types.Type
+	harnesses      map[string]*Harness
+	initOrder      []*ssa.Package
+	inited         map[*ssa.Package]bool // in base
+	initMu         sync.Mutex
+	methMu         sync.Mutex
+	methCache      map[methKey]*ssa.Function
+	LoadedFiles    []string
 }
 
 type methKey struct {
@@ -67,9 +69,9 @@ type methKey struct {
 
 func LoadProgram(opts Options) (*Program, error) {
 	cfg := &packages.Config{
-		Mode: packages.LoadAllSyntax,
-		Dir:  opts.HarnessDir,
-		Env: append(os.Environ(), "GOFLAGS=-mod=mod", "GOPROXY=off", "GOSUMDB=off", "GOTOOLCHAIN=local"),
+		Mode:    packages.LoadAllSyntax,
+		Dir:     opts.HarnessDir,
+		Env:     append(os.Environ(), "GOFLAGS=-mod=mod", "GOPROXY=off", "GOSUMDB=off", "GOTOOLCHAIN=local"),
 		Overlay: opts.Overlay,
 	}
 	initial, err := packages.Load(cfg, "./props")
